@@ -240,6 +240,17 @@ func c20Chain(h int, r *core.Rng) *TNode {
 
 func init() {
 	extraLeaf["zero-stack"] = func(*LeafDesc) any { return stackage.Stack{} }
+	extraLeaf["nil-instance-ptr"] = func(l *LeafDesc) any {
+		switch l.N {
+		case 0:
+			return (*stackage.Stack)(nil)
+		case 1:
+			return (*stackage.Condition)(nil)
+		case 2:
+			return (*AStack)(nil)
+		}
+		return (*ACond)(nil)
+	}
 }
 
 func c20Run(c *core.Ctx, idx int) {
@@ -285,10 +296,18 @@ func c20Run(c *core.Ctx, idx int) {
 		})
 		st := stacks[r.Intn(len(stacks))]
 		var odd *TNode
-		if r.Bool() {
+		switch r.Intn(4) {
+		case 0:
 			odd = &TNode{T: "leaf", Leaf: &LeafDesc{Tag: "zero-stack"}}
-		} else {
+		case 1:
 			odd = &TNode{T: "cond", Kw: "holder", Op: &OpDesc{Code: 1}, Expr: &TNode{T: "leaf", Leaf: &LeafDesc{Tag: "zero-stack"}}}
+		default:
+			// a typed nil pointer to a Stack / Condition / alias: satisfies every interface its element type satisfies,
+			// yet nothing can be called through it - as the ONLY child of an envelope, or in slot 0 next to others
+			odd = &TNode{T: "leaf", Leaf: &LeafDesc{Tag: "nil-instance-ptr", N: r.Intn(4)}}
+			if r.Bool() {
+				odd = &TNode{T: "stack", Kind: []string{"AND", "OR", "LIST"}[r.Intn(3)], Kids: []*TNode{odd}}
+			}
 		}
 		st.Kids = append([]*TNode{odd}, st.Kids...)
 		if r.Bool() {
